@@ -84,9 +84,10 @@ class FileLoader(IFileLoader):
 		if found_filepath is None:
 			raise FileNotFoundError(f'No such file or directory. filepath: {filepath}')
 
-		# XXX ハッシュ値をキャッシュさせるためにロードを実行
+		# XXX ハッシュ値はバイト列から算出するため、デコード出来ないファイルでも取得可能
 		if found_filepath not in self.__hashs:
-			self.load(found_filepath)
+			with open(found_filepath, mode='rb') as f:
+				self.__hashs[found_filepath] = hashlib.md5(f.read()).hexdigest()
 
 		return self.__hashs[found_filepath]
 
